@@ -204,6 +204,19 @@ _UESC = re.compile(r'\\u\{([0-9a-fA-F]+)\}')
 
 
 def zstr(t):
-    """Python str of a z3 string value (undoes z3's \\u{..} output escapes)"""
-    return _UESC.sub(lambda m: chr(int(m.group(1), 16)), t.as_string())
+    """Python str of a z3 string value (undoes z3's \\u{..} output escapes); terms built from seq.unit(char.from_bv ..)
+    that model evaluation leaves unfolded are folded here"""
+    if z3.is_string_value(t): return _UESC.sub(lambda m: chr(int(m.group(1), 16)), t.as_string())
+    t = z3.simplify(t)
+    if z3.is_string_value(t): return _UESC.sub(lambda m: chr(int(m.group(1), 16)), t.as_string())
+    d = t.decl().name()
+    if d == 'str.++': return ''.join(zstr(t.arg(i)) for i in range(t.num_args()))
+    if d == 'seq.unit':
+        c = t.arg(0)
+        if c.decl().name() == 'char.from_bv':
+            b = z3.simplify(c.arg(0))
+            if z3.is_bv_value(b): return chr(b.as_long())
+        if c.decl().name() == 'Char': return chr(c.params()[0]) if hasattr(c, 'params') else chr(int(str(c)))
+    if d == 'seq.empty': return ''
+    raise ValueError(f'not a string value: {t}')
 
